@@ -730,7 +730,8 @@ void h_vo_loadc(void) { int k = nd_int();
 /* LOAD_UPVALUE: A <- upvalue (environment B, index C);  SET_UPVALUE: upvalue (B, C) <- A.
  * TOOL LIMITATION (CBMC 6.11): pointer arithmetic on a pointer read from a NON-FIRST union member is mis-translated
  * (`e->as.values[2]` with `union { F *fiber; J *values; } as` reads at a wrong offset; `J *v = e->as.values; v[2]` is fine),
- * so the closed environment is exercised with upvalue index 0 only (and with index 3 for the bound check, which raises first).
+ * in every form we tried (also with index 0), so reads and writes of a CLOSED environment are not exercised (only its bound check, which raises before the access);
+ * the two open environments go through the first union member and are modelled correctly.
  * Three environments: 0 = closed (values live in the environment), 1 = on the stack of another fiber,
  * 2 = on this fiber's stack, namely the running frame itself. */
 #define VO_NENV 3
@@ -785,11 +786,11 @@ static void vo_upvalue(uint32_t set, uint32_t a, uint32_t b, uint32_t c) {
     REACH("vm.op upvalue");
 }
 void h_vo_upvalue_load(void) { int k = nd_int();
-    if (k == 0) vo_upvalue(0, 0, 0, 0); else if (k == 1) vo_upvalue(0, 1, 0, 0); else if (k == 2) vo_upvalue(0, 0, 1, 0); else if (k == 3) vo_upvalue(0, 2, 1, 2);
+    if (k == 0) vo_upvalue(0, 0, 1, 1); else if (k == 1) vo_upvalue(0, 1, 1, 1); else if (k == 2) vo_upvalue(0, 0, 1, 0); else if (k == 3) vo_upvalue(0, 2, 1, 2);
     else if (k == 4) vo_upvalue(0, 0, 2, 0); else if (k == 5) vo_upvalue(0, 1, 2, 3); else if (k == 6) vo_upvalue(0, 3, 2, 1);
     else if (k == 7) vo_upvalue(0, 0, 3, 0); else if (k == 8) vo_upvalue(0, 0, 0, 3); else if (k == 9) vo_upvalue(0, 0, 1, 3); else if (k == 10) vo_upvalue(0, 0, 2, 4); else vo_upvalue(0, 0, 255, 0); }
 void h_vo_upvalue_set(void) { int k = nd_int();
-    if (k == 0) vo_upvalue(1, 0, 0, 0); else if (k == 1) vo_upvalue(1, 1, 0, 0); else if (k == 2) vo_upvalue(1, 0, 1, 0); else if (k == 3) vo_upvalue(1, 2, 1, 2);
+    if (k == 0) vo_upvalue(1, 0, 1, 1); else if (k == 1) vo_upvalue(1, 1, 1, 1); else if (k == 2) vo_upvalue(1, 0, 1, 0); else if (k == 3) vo_upvalue(1, 2, 1, 2);
     else if (k == 4) vo_upvalue(1, 0, 2, 0); else if (k == 5) vo_upvalue(1, 1, 2, 3); else if (k == 6) vo_upvalue(1, 3, 2, 1);
     else if (k == 7) vo_upvalue(1, 0, 3, 0); else if (k == 8) vo_upvalue(1, 0, 0, 3); else if (k == 9) vo_upvalue(1, 0, 1, 3); else if (k == 10) vo_upvalue(1, 0, 2, 4); else vo_upvalue(1, 0, 255, 0); }
 #endif
